@@ -11,6 +11,7 @@ import (
 	"os"
 	"strings"
 
+	"github.com/antonmedv/expr"
 	"github.com/antonmedv/expr/vm"
 )
 
@@ -145,6 +146,7 @@ type replayer struct {
 	failOut  *json.Encoder
 	maxSamp  int
 	seenProg map[string]bool
+	extra    []expr.Option // options added to every compile (C17: the operator mapping)
 }
 
 func (r *replayer) fail(f Failure) {
@@ -173,7 +175,7 @@ func (r *replayer) evalCase(c Case) {
 	lg := &Log{}
 	nontrivial := false
 	for _, m := range r.modes {
-		prog, cg := CompileMode(c.Src, m)
+		prog, cg := CompileMode(c.Src, m, r.extra...)
 		if cg != nil {
 			if cg.Panic != "" || cg.Hang {
 				r.fail(Failure{Why: "compile-panic", Src: c.Src, Mode: m.String(), Got: cg, Tags: c.Tags})
@@ -202,7 +204,9 @@ func (r *replayer) evalCase(c Case) {
 			g := RunMode(c.Src, prog, m, e, lg)
 			restore()
 			r.sum.Executions++
-			if ok, why := conforms(g, rc.Exp, true); !ok {
+			// C17: which calls precede a failure is an evaluation-order matter (C01's subject)
+			withCalls := r.prop != "C17" || rc.Exp.Ok
+			if ok, why := conforms(g, rc.Exp, withCalls); !ok {
 				exp := rc.Exp
 				r.fail(Failure{Why: why, Src: c.Src, Mode: m.String(), Env: rc.Env, Budget: rc.Budget,
 					Exp: &exp, Got: &g, DevMatch: devMatches(g, rc.Dev, true), Tags: c.Tags})
@@ -337,6 +341,16 @@ func (r *replayer) dispatch(line []byte) error {
 			return err
 		}
 		r.pureCase(c)
+	case "C17":
+		var c Case
+		if err := json.Unmarshal(line, &c); err != nil {
+			return err
+		}
+		if r.extra == nil {
+			r.extra = []expr.Option{expr.Operator("+", "Add")}
+			r.badOperatorMappings()
+		}
+		r.evalCase(c)
 	case "C06":
 		var c Case
 		if err := json.Unmarshal(line, &c); err != nil {
@@ -359,4 +373,20 @@ func (r *replayer) dispatch(line []byte) error {
 		return fmt.Errorf("no replay driver for %s", r.prop)
 	}
 	return nil
+}
+
+// badOperatorMappings: a mapping that names a missing or ill-shaped function
+// must be rejected by Compile (C17, last sentence).
+func (r *replayer) badOperatorMappings() {
+	for _, fn := range []string{"Nope", "IsPos", "I", "Cat3"} {
+		m := Mode{Env: "struct", Optimize: true}
+		_, cg := CompileMode("1 + 2", m, expr.Operator("+", fn))
+		r.sum.Executions++
+		r.sum.Stats["bad-mappings-tried"]++
+		if cg == nil {
+			r.fail(Failure{Why: "bad-operator-mapping-accepted", Src: "1 + 2", Mode: m.String(), Tags: []string{"Operator(+," + fn + ")"}})
+		} else if cg.Panic != "" || cg.Hang {
+			r.sum.Stats["bad-mapping-panics (C04's subject)"]++
+		}
+	}
 }
